@@ -92,7 +92,7 @@ def _wn_general(test, ev):
         a, b = ev.ev(test.left), ev.ev(test.comparators[0])
         if is_unknown(a) or is_unknown(b) or isinstance(a, (tuple, DictValue)) or isinstance(b, (tuple, DictValue)):
             return None
-        r = (need(a) - need(b)) / F.sym("wn")
+        r = (need(a) - need(b)) / F.sym("<wn>")
         if r.is_const() and not r.is_zero():
             return isinstance(test.ops[0], ast.NotEq)
     return None
@@ -105,6 +105,9 @@ def _vector(S_, v, what):
     if n is not None and n in S_.ev.buffers:
         # an array filled element by element
         got = {}
+        init = S_.ev.env.get("<init:%s>" % n)
+        if isinstance(init, tuple):
+            got = dict(enumerate(init))
         for _nm, ix, val, _st in S_.cells(n):
             if is_unknown(ix) or not need(ix).is_const() or need(ix).const_value().denominator != 1:
                 raise Unsupported(f"{what}: element store with a non-constant index")
@@ -114,22 +117,20 @@ def _vector(S_, v, what):
     raise Unsupported(f"{what}: return value is not (b, a) arrays")
 
 
-_FILTER_CACHE = {}
-
-
 def extract_filter(ctx, stype, zero):
-    key = (id(ctx), stype, zero)
-    if key in _FILTER_CACHE:
-        r = _FILTER_CACHE[key]
+    cache = ctx.__dict__.setdefault("_c03_filters", {})
+    key = (stype, zero)
+    if key in cache:
+        r = cache[key]
         if isinstance(r, Exception):
             raise r
         return r
     try:
         r = _extract_filter(ctx, stype, zero)
     except (Unsupported, AnchorError) as e:
-        _FILTER_CACHE[key] = e
+        cache[key] = e
         raise
-    _FILTER_CACHE[key] = r
+    cache[key] = r
     return r
 
 
@@ -138,8 +139,9 @@ def _extract_filter(ctx, stype, zero):
     params = [a.arg for a in fn.args.posonlyargs + fn.args.args]
     if len(params) < 3:
         raise AnchorError(f"{stype}: expected (Q, dT, wn) parameters")
-    zeta = F.sym("zeta")
-    env = {params[0]: 1 / (2 * zeta), params[1]: F.sym("dT"), params[2]: F.const(0) if zero else F.sym("wn")}
+    # the seeds are not Python identifiers: a free name of the source (an unbound `zeta`, say) can never be mistaken for one of them
+    zeta = F.sym("<zeta>")
+    env = {params[0]: 1 / (2 * zeta), params[1]: F.sym("<dT>"), params[2]: F.const(0) if zero else F.sym("<wn>")}
     S_ = Sem3(ctx, fn, SRS, cond=None if zero else _wn_general, env=env, hooks=(_coef_hook,))
     if not S_.ev.returns:
         raise AnchorError(f"{stype}: no return")
@@ -149,13 +151,21 @@ def _extract_filter(ctx, stype, zero):
     if not (isinstance(ret, tuple) and len(ret) == 2):
         raise Unsupported(f"{stype}: return value is not (b, a) arrays")
     b, a = (_vector(S_, x, stype) for x in ret)
+    back = {"<zeta>": F.sym("zeta"), "<dT>": F.sym("dT"), "<wn>": F.sym("wn")}
+    out = []
     for nm, vec in (("b", b), ("a", a)):
+        new = []
         for i, x in enumerate(vec):
             need(x, f"{stype} {nm}[{i}]")
             un = sorted(n for n in X.fn_names(x) if n.startswith(("call:", "attr:", "idx", "apply")))
             if un:
                 raise Unsupported(f"{stype} {nm}[{i}] uses operations this rule does not model: {un}")
-    return b, a, fn
+            free = sorted(X.sym_names(x) - set(back) - {"pi"})
+            if free:
+                raise Unsupported(f"{stype} {nm}[{i}] depends on names that are not bound in the function: {free}")
+            new.append(x.subs(back))
+        out.append(tuple(new))
+    return out[0], out[1], fn
 
 
 def r1_filters(ctx):
@@ -388,6 +398,11 @@ def _window(val):
         u = unfn(val)
     if u and u[0] == "idx" and len(u[1]) == 2 and not isinstance(u[1][1], str):
         sl = unfn(u[1][1])
+        if sl and sl[0] == "tuple" and sl[1] and not any(isinstance(z, str) for z in sl[1]):
+            # history[start:, :] / history[start:, ...]: full slices after the first index
+            rest = [unfn(z) if sym_of(z) != "Ellipsis" else ("slice", [NONE, NONE, NONE]) for z in sl[1][1:]]
+            if all(r and r[0] == "slice" and all(sym_of(q) == "None" for q in r[1]) for r in rest):
+                sl = unfn(sl[1][0])
         if sl and sl[0] == "slice" and len(sl[1]) == 3 and sym_of(sl[1][1]) == "None" and sym_of(sl[1][2]) == "None":
             start = F.const(0) if sym_of(sl[1][0]) == "None" else sl[1][0]
             return kind, u[1][0], start
@@ -446,13 +461,22 @@ def _check_addback(ctx, st, site, S_, recs, where, want_func=None):
         if X.contains(add, rec["sym"]) or not add.equals(wantv):
             bad.append({"use": kind, "line": getattr(stn, "lineno", None), "added": repr(add)[:300], "DCgain*s1": repr(wantv)})
     if not npeak:
-        ctx.error(f"{st}: {site}: no peak taken from the filter output", where)
+        peaks = [c[2] for c in list(S_.ev.cells) + list(S_.ev.deep)
+                 if c[2] is not None and not is_unknown(c[2]) and not isinstance(c[2], (tuple, DictValue)) and (unfn(c[2]) or ("",))[0] == "apply"]
+        if peaks:
+            ctx.fail(f"{st}: steady-state add-back in {site} equals DCgain*s1", rec["node"],
+                     {"the response given to the peak function does not contain the filter output": repr(peaks[0])[:300]}, key=f"C03-R3|{st}|{site}")
+        else:
+            ctx.error(f"{st}: {site}: no peak taken from the filter output", where)
         return
     ctx.check(not bad, f"{st}: steady-state add-back in {site} equals DCgain*s1", rec["node"], bad or None, key=f"C03-R3|{st}|{site}")
     if want_func is not None:
         f = sym_of(cc["func"])
-        ok = f is not None and ctx.src.has_func(SRS, f) and ctx.src.mod(SRS).funcs[f] is want_func
-        ctx.check(ok, f"{st}: {site} filters with the coefficient function verified under that name", rec["node"], None if ok else repr(cc["func"]))
+        if f is None or not ctx.src.has_func(SRS, f):
+            ctx.error(f"{st}: {site}: the coefficient function is selected in a way this rule does not model", rec["node"], repr(cc["func"])[:300])
+        else:
+            ok = ctx.src.mod(SRS).funcs[f] is want_func
+            ctx.check(ok, f"{st}: {site} filters with the coefficient function verified under that name", rec["node"], None if ok else f)
 
 
 def _strip_shared(v):
@@ -655,6 +679,19 @@ def _facts(ctx, S_, recs):
     return f
 
 
+def _shifted(ic):
+    """the documented initial-condition rules as values over the parameter `sig` (a 2-D array, time down the rows)"""
+    sig = F.sym("sig")
+    if ic == "zero":
+        return sig
+    if ic == "mshift":
+        return sig - F.fn("red:mean", sig, F.const(0))
+    return sig - F.fn("idx", sig, F.const(0))
+
+
+_SHIFT_WORDS = {"zero": "as given", "shift": "minus its first sample", "mshift": "minus its mean over time", "steady": "minus its first sample"}
+
+
 def r4_windows(ctx):
     """primary / residual window bookkeeping of srs(), on values: which rows of which signal are filtered, where the evaluated window starts,
     how long the returned history and time vector are, what is appended - for every time option x rolloff regime, and the frame of the
@@ -756,9 +793,17 @@ def r4_windows(ctx):
         for ic in ICS:
             tag = f"srs (stype={st}, ic={ic}, time=total)"
             try:
-                bad, n = [], 0
+                bad, n, extra, shifted = [], 0, [], []
                 for S_, recs in srs_regime(ctx, st=st, ic=ic, time="total"):
                     f = _facts(ctx, S_, recs)
+                    if not _shifted(ic).equals(f["prim"]):
+                        shifted.append({"filtered": repr(f["prim"])[:300], "rule": repr(_shifted(ic))})
+                    if ic != "steady":
+                        # zero initial conditions: the history is the filter output itself
+                        for val, _ix, stn in _uses(S_, f["rec"]):
+                            _kind, hist, _start = _window(val)
+                            if hist is None or not hist.equals(f["rec"]["sym"]):
+                                extra.append({"line": getattr(stn, "lineno", None), "value": repr(val)[:300]})
                     if not f["padded"]:
                         continue
                     n += 1
@@ -769,11 +814,14 @@ def r4_windows(ctx):
                     removed = (F.sym("sig") - f["prim"]) if ic == "steady" else F.const(0)
                     if not (f["pad"] + removed).equals(z[0]):
                         bad.append({"appended": repr(f["pad"]), "offset removed from the signal": repr(removed)})
+                ctx.check(not shifted, f"{tag}: the signal that is filtered is the input " + _SHIFT_WORDS[ic], fn, shifted or None)
                 if not n:
                     ctx.error(f"{tag}: no path appends a cycle", fn)
                     continue
                 ctx.check(not bad, f"{tag}: the appended cycle is zero base acceleration "
                           + ("in the frame of the original signal (zeros minus the offset ic='steady' removed)" if ic == "steady" else "(plain zeros)"), fn, bad or None)
+                if ic != "steady":
+                    ctx.check(not extra, f"{tag}: nothing is added to the filter output (no steady-state values to restore)", fn, extra or None)
             except Unsupported as e:
                 ctx.error(f"{tag}: evaluation", fn, str(e))
 
@@ -865,6 +913,10 @@ def r6_vrs(ctx):
                 P, G = prec[0]["sym"], prec[0]["grid"]
                 pname = sym_of(P)
                 zname = sym_of(ret[0]) if not is_unknown(ret[0]) and not isinstance(ret[0], (tuple, DictValue)) else None
+                squared = False
+                if zname is None and not is_unknown(ret[0]) and not isinstance(ret[0], (tuple, DictValue)):
+                    zname = sym_of(need(ret[0]) * need(ret[0]))         # sqrt of an array of sums, taken after the loop
+                    squared = zname is not None
                 cells = S_.cells(zname) if zname else []
                 if not cells:
                     ctx.error(f"{tag}: the returned spectrum is not an array filled in the function", S_.ret_node(), repr(ret[0])[:200])
@@ -873,7 +925,7 @@ def r6_vrs(ctx):
                     if is_unknown(val) or is_unknown(ix) or isinstance(val, (tuple, DictValue)):
                         ctx.error(f"{tag}: stored spectrum value", stn, repr(val)[:300])
                         continue
-                    u = unfn(need(val) * need(val))
+                    u = unfn(need(val) if squared else need(val) * need(val))
                     if not (u and u[0] == "red:sum" and not isinstance(u[1][0], str)):
                         ctx.error(f"{tag}: stored spectrum value is not sqrt(sum(...))", stn, repr(val)[:300])
                         continue
@@ -995,6 +1047,17 @@ def r7_eqsine(ctx):
                             k += 1
                         elif X.depends(need(val), "Q"):
                             other.append(repr(val)[:200])
+                    # a local array bound to resp['hist'] and scaled in place
+                    if name:
+                        for b in S_.ev.buffers:
+                            init, curv = S_.ev.env.get("<init:%s>" % b), S_.ev.env.get("<cur:%s>" % b)
+                            if init is None or curv is None or is_unknown(init) or is_unknown(curv) or isinstance(init, (tuple, DictValue)) or isinstance(curv, (tuple, DictValue)):
+                                continue
+                            if need(init).equals(F.fn("idx", F.sym(name), S("hist"))):
+                                if need(curv).equals(F.sym(b) / Q):
+                                    k += 1
+                                elif X.depends(need(curv), "Q"):
+                                    other.append(repr(curv)[:200])
                     cnt[eq] = (k, other)
                 ok = cnt[True] == (1, []) and cnt[False] == (0, [])
                 ctx.check(ok, f"{tag}: the returned response history is divided by Q once when eqsine is set and not at all otherwise", out[True].ret_node(),
@@ -1062,10 +1125,10 @@ def r8_peak_selectors(ctx):
 RULES = [
     ("C03-R1", r1_filters, 36),
     ("C03-R2", r2_zero_limits, 12),
-    ("C03-R3", r3_dc_gain, 30),
-    ("C03-R4", r4_windows, 60),
-    ("C03-R6", r6_vrs, 10),
-    ("C03-R7", r7_eqsine, 5),
+    ("C03-R3", r3_dc_gain, 40),
+    ("C03-R4", r4_windows, 110),
+    ("C03-R6", r6_vrs, 12),
+    ("C03-R7", r7_eqsine, 7),
     ("C03-R8", r8_peak_selectors, 7),
 ]
 
